@@ -1,7 +1,7 @@
 """C04 - a modified blob never decrypts to different plaintext."""
 from __future__ import annotations
 
-from vlib.api import harness
+from vlib.api import all_of, harness
 
 from . import blobmut
 from .world import seq_eq
@@ -96,4 +96,44 @@ def rekeyed_blob(c, pos, secret, layout):
     c.reach("rekeyed blob built")
     out = c.call(dpapi_ng.ncrypt_unprotect_secret, bad, cache=e2e.loaded_cache(c, root, "SHA512"))
     c.check(seq_eq(out, pt), "an altered blob decrypted to different plaintext")
+    return True
+
+
+@harness(P, per_job=True, params=lambda tier: [dict(tamper=t, hi=h) for t in ("none", "truncate", "drop_prefix", "cut_middle", "extend") for h in ([1 << 18] if tier == "quick" else [1 << 18, (1 << 21) + 77])],
+         raises=(Exception,), max_steps=2000000,
+         bounds="content_encrypt / content_decrypt on a message whose LENGTH is a solver variable in [0, 2^18] (thorough: also [0, 2^21+77]; opaque content): the sealed message is kept whole, "
+         "truncated to any shorter length, stripped of any non-empty prefix, has any non-empty middle slice removed, or has any non-empty part of itself appended; every cut point is a "
+         "solver variable. Only the whole message may decrypt, and to the original; this holds whatever chunking the implementation uses internally (one-shot or streaming GCM)",
+         outside="alterations of content octets of long messages (the listed-length harness alters octets of short ones); lengths above the bound",
+         must_reach=("long content: tampered message built",))
+def large_content(c, tamper, hi):
+    from dpapi_ng import _crypto
+
+    from . import e2e, refs
+
+    w = e2e.new_world(c)
+    cek, nonce = c.bytes("cek", 32), c.bytes("nonce", 12)
+    params = refs.ref_gcm_parameters(nonce)
+    alg = "2.16.840.1.101.3.4.1.46"
+    pt, L = c.blob("pt", 0, hi)
+    ct = c.call(_crypto.content_encrypt, alg, params, cek, pt)
+    n = L + 16
+    a, b = c.int("cut_a", 0, hi + 16), c.int("cut_b", 0, hi + 16)
+    if tamper == "none":
+        bad = ct
+    elif tamper == "truncate":
+        c.assume(a < n)
+        bad = ct[:a]
+    elif tamper == "drop_prefix":
+        c.assume(all_of([a >= 1, a <= n]))
+        bad = ct[a:]
+    elif tamper == "cut_middle":
+        c.assume(all_of([a < b, b <= n]))
+        bad = refs.cat(ct[:a], ct[b:]) if not c.symbolic else ct[:a] + ct[b:]
+    else:
+        c.assume(all_of([a < b, b <= n]))
+        bad = refs.cat(ct, ct[a:b]) if not c.symbolic else ct + ct[a:b]
+    c.reach("long content: tampered message built")
+    out = c.call(_crypto.content_decrypt, alg, params, cek, bad)
+    c.check(seq_eq(out, pt) if tamper == "none" else False, "an altered blob decrypted to different plaintext" if tamper != "none" else "long content: whole message decrypts to the original")
     return True
